@@ -1216,6 +1216,15 @@ def _anyall(m, func, args, kwargs):
     return out
 
 
+@handler('aten._is_all_true.default', 'aten._is_any_true.default')
+def _is_all_true(m, func, args, kwargs):
+    out = func(*args, **kwargs)
+    ts = [to_bool(t) for t in m.full_terms(args[0])]
+    isany = 'any' in str(func)
+    m.write(out, [simp((z3.Or if isany else z3.And)(ts)) if ts else z3.BoolVal(not isany)])
+    return out
+
+
 @handler('aten.allclose.default')
 def _allclose(m, func, args, kwargs):
     a, b = args[0], args[1]
@@ -1307,6 +1316,28 @@ def _cumsum(m, func, args, kwargs):
         for i in row:
             acc = simp(acc + ft[i])
             res[i] = acc
+    m.write(out, res)
+    return out
+
+
+@handler('aten._softmax.default', 'aten._log_softmax.default')
+def _softmax(m, func, args, kwargs):
+    """by definition: exp(x_i) / sum_j exp(x_j) along dim (log_softmax: x_i - log sum_j exp(x_j))"""
+    out = func(*args, **kwargs)
+    x, dim = args[0], args[1]
+    ft = [to_real(t) for t in m.full_terms(x)]
+    if x.dim() == 0:
+        rows = [[0]]
+    else:
+        with _disable_current_modes():
+            rows = torch.arange(x.numel()).view(x.shape).movedim(dim, -1).reshape(-1, x.shape[dim]).tolist()
+    res = [None] * x.numel()
+    islog = 'log_softmax' in str(func)
+    for row in rows:
+        es = [m.ctx.tfun('exp', ft[i]) for i in row]
+        tot = simp(z3.Sum(es)) if len(es) > 1 else es[0]
+        for i, e in zip(row, es):
+            res[i] = simp(ft[i] - m.ctx.tfun('log', tot)) if islog else simp(e / tot)
     m.write(out, res)
     return out
 
@@ -1814,6 +1845,36 @@ def _cholesky_solve(m, func, args, kwargs):
         Lt = [Lm[j * n + i] for i in range(n) for j in range(n)]
         X = _solve_upper(Lt, Y, n, k)
         res += X
+    m.write(out, res)
+    return out
+
+
+@handler('aten.linalg_solve_triangular.default')
+def _solve_triangular(m, func, args, kwargs):
+    """by definition: substitution with the stated triangle of A (left=True: A X = B)"""
+    A, B = args[0], args[1]
+    upper = kwargs.get('upper', args[2] if len(args) > 2 else False)
+    left = kwargs.get('left', args[3] if len(args) > 3 else True)
+    unit = kwargs.get('unitriangular', args[4] if len(args) > 4 else False)
+    if not left:
+        raise Unsupported('solve_triangular left=False')
+    n, k = B.shape[-2], B.shape[-1]
+    if n > 4:
+        raise Unsupported('solve_triangular n>4')
+    out = func(*args, **kwargs)
+    shape = torch.broadcast_shapes(A.shape[:-2], B.shape[:-2])
+    with _disable_current_modes():
+        Ae, Be = A.expand(shape + A.shape[-2:]), B.expand(shape + B.shape[-2:])
+    fa = [to_real(t) for t in m.full_terms(Ae)]
+    fb = [to_real(t) for t in m.full_terms(Be)]
+    nb = max(1, math.prod(shape))
+    res = []
+    for b in range(nb):
+        Am = fa[b * n * n:(b + 1) * n * n]
+        keep = (lambda i, j: j >= i) if upper else (lambda i, j: j <= i)
+        Am = [(z3.RealVal(1) if (unit and i == j) else Am[i * n + j]) if keep(i, j) else z3.RealVal(0) for i in range(n) for j in range(n)]
+        Bm = fb[b * n * k:(b + 1) * n * k]
+        res += (_solve_upper if upper else _solve_lower)(Am, Bm, n, k)
     m.write(out, res)
     return out
 
